@@ -2720,6 +2720,11 @@ func (s *Store) fsmSnapshot() (fSnap raft.FSMSnapshot, retErr error) {
 		// which will be faster than performing a full snapshot. All this means that we avoid breaking the
 		// series of incremental snapshots. The next Snapshot will comprise of two WAL files in that case.
 		if err := walWriter.Close(); err != nil {
+			// The WAL has already been checkpointed into the database, so without its
+			// compacted copy the series of incremental snapshots is broken.
+			if ferr := s.snapshotStore.SetDueNext(snapshot.Full); ferr != nil {
+				s.logger.Fatalf("failed to set full needed after failing to stage WAL: %s", ferr)
+			}
 			return nil, err
 		}
 
